@@ -1,5 +1,6 @@
 import KoordVerif.Model.C20
 import KoordVerif.Proofs.C20ExtHist
+import KoordVerif.Proofs.C20ExtHistQ
 /-
 C20 — property theorems (DESIGN.md §4 C20) over the executable model `Model/C20.lean`.
 
@@ -677,6 +678,67 @@ example : (hrun hxD hxParse (World.init hxD) [.cmCreate [0, 1], .nodeAdd 1 [(1, 
 -- a restart with an unchanged ConfigMap and a deleted node: the orphan NodeSLO is removed
 example : lookupA (hrun hxD hxParse (World.init hxD) [.cmCreate [0, 1], .nodeAdd 1 [(1, 1)], .nodeDelete 1, .restart true]).slos 1 = none := by decide
 end HistExamples
+
+/-! ### 7. arbitrary interleavings: events only enqueue; requests are reconciled later, in any order, between further changes -/
+
+/-- after ANY interleaving of API changes/events and reconciles (Model/C20HistQ.lean), every node whose name is not pending
+    in the work queue has a NodeSLO that is exactly the spec recomputed from the cache for its current labels. -/
+theorem nonpending_nodeslo_correct (d : Defaults) (parse : Ident → CM) (ss : List QStep) (n : Nat) (ls : Labels)
+    (hq : n ∉ (qrun d parse (QWorld.init d) ss).q)
+    (hn : lookupA (qrun d parse (QWorld.init d) ss).w.nodes n = some ls) :
+    lookupA (qrun d parse (QWorld.init d) ss).w.slos n = some (nodeSpec (qrun d parse (QWorld.init d) ss).w.cfg ls) ∧
+    (qrun d parse (QWorld.init d) ss).w.avail = true := by
+  have h := qrun_inv d parse ss (QWorld.init d) (qinit_inv d) n hq
+  constructor
+  · have h1 := h.1
+    unfold Correct at h1
+    rw [h1, hn]; rfl
+  · cases ha : (qrun d parse (QWorld.init d) ss).w.avail with
+    | true => rfl
+    | false => rw [h.2 ha] at hn; cases hn
+
+/-- at quiescence (empty queue) the delivery invariant of the drained model holds: all NodeSLOs correct, no orphan. -/
+theorem quiescent_delivery_over_interleavings (d : Defaults) (parse : Ident → CM) (ss : List QStep)
+    (hq : (qrun d parse (QWorld.init d) ss).q = []) : Inv (qrun d parse (QWorld.init d) ss).w :=
+  invQ_quiescent _ (qrun_inv d parse ss (QWorld.init d) (qinit_inv d)) hq
+
+/-- the cache tracks the CURRENT ConfigMap text at every moment of every interleaving (once available). -/
+theorem cache_tracks_latest_data_interleaved (d : Defaults) (parse : Ident → CM) (ss : List QStep) (i : Ident)
+    (ha : (qrun d parse (QWorld.init d) ss).w.avail = true) (hcm : (qrun d parse (QWorld.init d) ss).w.cm = some i) :
+    Tracks d (qrun d parse (QWorld.init d) ss).w.cfg (parse i) :=
+  qrun_cinv d parse ss (QWorld.init d) (init_cinv d parse) ha i hcm
+
+/-- END TO END for interleavings (system section): a node that is not pending carries, at every path, the value of the
+    first entry of the CURRENT text selecting its CURRENT labels, else the cluster value, else the default. -/
+theorem delivered_system_layering_interleaved (d : Defaults) (parse : Ident → CM) (ss : List QStep) (n : Nat) (ls : Labels)
+    (i : Ident) (c : Option Flat) (pre post : List NodeEntry) (e : NodeEntry) (p : Path)
+    (hq : n ∉ (qrun d parse (QWorld.init d) ss).q)
+    (hn : lookupA (qrun d parse (QWorld.init d) ss).w.nodes n = some ls)
+    (hcm : (qrun d parse (QWorld.init d) ss).w.cm = some i)
+    (hsec : (parse i).sys = .ok c (pre ++ e :: post))
+    (hpre : ∀ x ∈ pre, x.sel.matches ls = false) (he : e.sel.matches ls = true)
+    (hd : get d.sys tnbPath = some 0) (hc : RootObj true c) (hsr : RootObj true e.strat) :
+    ∃ spec, lookupA (qrun d parse (QWorld.init d) ss).w.slos n = some spec ∧
+      (spec[3]?).map (fun t => get t p) = some (lay true e.strat (lay true c (get d.sys)) p) := by
+  have h := nonpending_nodeslo_correct d parse ss n ls hq hn
+  have ht := cache_tracks_latest_data_interleaved d parse ss i h.2 hcm
+  refine ⟨_, h.1, ?_⟩
+  simp only [nodeSpec, List.getElem?_cons_succ, List.getElem?_cons_zero, Option.map_some]
+  rw [fresh_section_layering true d.sys _ _ c pre post e ls p ht.2.2.2.1 hsec hpre he (fun _ => hd) hc hsr]
+
+-- non-vacuity: two ConfigMap writes and a relabel happen while node 1's request is still queued; it is reconciled once
+example : (qrun hxD hxParse (QWorld.init hxD)
+      [.ev (.cmCreate [0, 1]), .ev (.nodeAdd 1 [(1, 1)]), .ev (.nodeUpdate 1 [(1, 2)]), .ev (.cmUpdate [0, 0]), .reco 1]).q = [] ∧
+    (lookupA (qrun hxD hxParse (QWorld.init hxD)
+      [.ev (.cmCreate [0, 1]), .ev (.nodeAdd 1 [(1, 1)]), .ev (.nodeUpdate 1 [(1, 2)]), .ev (.cmUpdate [0, 0]), .reco 1]).w.slos 1).map
+        (fun spec => (get (spec.getD 3 []) [28], get (spec.getD 3 []) [26])) = some (none, some 100) := by decide
+-- while the request is pending the stored NodeSLO may be stale: here it still carries the removed entry's 160
+example : (lookupA (qrun hxD hxParse (QWorld.init hxD)
+      [.ev (.cmCreate [0, 1]), .ev (.nodeAdd 1 [(1, 1)]), .reco 1, .ev (.nodeUpdate 1 [(1, 2)])]).w.slos 1).map
+        (fun spec => get (spec.getD 3 []) [27]) = some (some 160) ∧
+    1 ∈ (qrun hxD hxParse (QWorld.init hxD)
+      [.ev (.cmCreate [0, 1]), .ev (.nodeAdd 1 [(1, 1)]), .reco 1, .ev (.nodeUpdate 1 [(1, 2)])]).q := by decide
+
 
 /-! ### non-vacuity: concrete configuration with overlapping selectors, all three layers, an array -/
 
